@@ -711,8 +711,9 @@ class Interp(ExprMixin):
         if t is False:
             return self.exec_block(s.orelse, [st]) if s.orelse else ([st], [])
         a, b = st, st.fork()
-        a.conds.append((tv, True, s))
-        b.conds.append((tv, False, s))
+        ctv, cpol = canon_cond(tv, True)
+        a.conds.append((ctv, cpol, s))
+        b.conds.append((ctv, not cpol, s))
         self.refine(s.test, True, a)
         self.refine(s.test, False, b)
         c1, d1 = self.exec_block(s.body, [a])
@@ -891,6 +892,17 @@ def _known_mapping(v):
                 return None
             out[pr.items[0].value] = pr.items[1]
     return out
+
+
+def canon_cond(tv, pol):
+    """Recorded path conditions are canonical: `not x` taken is `x` not taken."""
+    for _ in range(8):
+        a = tv.single_atom() if isinstance(tv, Poly) else None
+        if a is not None and a[0] == 'app' and a[1] == 'not' and len(a[2]) == 1 and isinstance(a[2][0], Poly):
+            tv, pol = a[2][0], not pol
+        else:
+            break
+    return tv, pol
 
 
 _IMPURE = ('m:', 'call:', 'callv', 'ext:', 'new:', 'mut:')
